@@ -200,6 +200,55 @@ def c14c_bits(F, R):
                         R.bad(key + "|shl", "register bit mask is not `1 << reg.to_num()`", loc(e))
 
 
+def _unspellable(F, text):
+    """True iff `LabelString::from_str` provably rejects `text`: some character fails the `.all(|c| ..)` alphabet test read from
+    its body (or the text is empty)."""
+    p = F.method("riscv_analysis::parser::label::LabelString", "from_str", trait="FromStr")
+    f = F.fn(p)
+    if not text:
+        return True
+    for m in walk(f["hir"]["value"], pats=False):
+        if m.get("k") == "MethodCall" and m["name"] == "all" and m["args"] and peel(m["args"][0]).get("k") == "Closure":
+            cl = peel(m["args"][0])
+            pn = [b_["name"] for p_ in cl.get("params", []) for b_ in walk(p_) if b_.get("k") == "PBinding"]
+            if len(pn) != 1:
+                return False
+            # the `all` must guard an `Err` return: `if !s.chars().all(..) { return Err(()) }`
+            for ch in text:
+                v = _char_pred(cl["body"], pn[0], ch)
+                if v is False:
+                    return True
+            return False
+    return False
+
+
+def _char_pred(e, pn, ch):
+    e = peel(e)
+    while e.get("k") == "Block" and not e.get("stmts") and e.get("expr") is not None:
+        e = peel(e["expr"])
+    k = e.get("k")
+    if k == "Binary" and e["op"] in ("Or", "And"):
+        a, b = _char_pred(e["a"], pn, ch), _char_pred(e["b"], pn, ch)
+        if a is None or b is None:
+            return None
+        return (a or b) if e["op"] == "Or" else (a and b)
+    if k == "Unary" and e["op"] == "Not":
+        a = _char_pred(e["a"], pn, ch)
+        return None if a is None else not a
+    if k == "Binary" and e["op"] in ("Eq", "Ne"):
+        x, y = peel(e["a"]), peel(e["b"])
+        if x.get("k") == "Path" and x.get("res") == pn and y.get("k") == "Lit" and y["lit"]["t"] == "char":
+            r = (y["lit"]["v"] == ch)
+            return r if e["op"] == "Eq" else not r
+        return None
+    if k == "MethodCall" and peel(e["recv"]).get("res") == pn and not e["args"]:
+        table = {"is_ascii_digit": ch.isascii() and ch.isdigit(), "is_alphabetic": ch.isalpha(), "is_alphanumeric": ch.isalnum(),
+                 "is_ascii_alphabetic": ch.isascii() and ch.isalpha(), "is_ascii_alphanumeric": ch.isascii() and ch.isalnum(),
+                 "is_ascii_lowercase": ch.isascii() and ch.islower(), "is_ascii_uppercase": ch.isascii() and ch.isupper()}
+        return table.get(e["name"])
+    return None
+
+
 @rule("C14", "C14.d.literal-labels", floor=1)
 def c14d(F, R):
     """no label is created from a string literal in non-test code (a reserved name would collide with a user label)"""
@@ -221,7 +270,9 @@ def c14d(F, R):
                         break
                 lits = [a["lit"]["v"]] if a.get("k") == "Lit" and a["lit"]["t"] == "str" else []
                 root = p.split("::{closure")[0]
-                if lits:
+                if lits and _unspellable(F, lits[0]):
+                    R.ok(f"{root}|{lits[0]}", detail=f"label {lits[0]!r} is a literal that LabelString::from_str rejects: no label in a source file can have this name", where=loc(e))
+                elif lits:
                     R.bad(f"{root}|{lits[0]}", f"label {lits[0]!r} is created from a literal in `{root}`; a user label of the same name is indistinguishable from it", loc(e))
                 else:
                     R.ok(f"{root}|dynamic", trivial=True)
